@@ -123,13 +123,24 @@ def run_operator_case(case, prop, configs, weakly, want, nq=8, cinf_bounds=(5, 5
 def _run_configs(rng, res, bump, configs, weakly, mode, sig, conds, keys, via, style, parallel, qs, qtt,
                  reuse_objects,
                  setup, csys, base, bdesc, ref_by_sys, extra, fam, prop):
+    shared_bb = impl.mk_bb(sig, conds, keys=keys, via=via, style=style) if rng.random() < 0.15 else None
+    if shared_bb is not None:
+        bump('cases_with_one_base_object_for_all_managers')
     for (system, p) in configs:
         cname = impl.cfg_name(system, p)
         if system not in ref_by_sys:
             ref_by_sys[system] = [oracle_answer(setup, csys, system, qv, qf) for (qv, qf) in qtt]
         refs = ref_by_sys[system]
-        bb = impl.mk_bb(sig, conds, keys=keys, via=via, style=style)
+        bb = shared_bb if shared_bb is not None else impl.mk_bb(sig, conds, keys=keys, via=via, style=style)
         queries = impl.mk_queries(qs)
+        if shared_bb is not None and system != 'c-inference':
+            # the same BeliefBase OBJECT has just served a manager of the OTHER mode (and, in turn, the other
+            # systems and back-ends): an answer depends on base, query, operator and mode only
+            try:
+                impl.ask(bb, system, p, impl.mk_queries(qs[:2]), weakly=not weakly)
+            except BaseException as e_:  # noqa  (e.g. a weakly consistent base is refused in strict mode)
+                if type(e_).__name__ in ('SoftTimeout', 'Stall'):
+                    raise
         if reuse_objects:
             # the query OBJECTS have a past: they are the rules of another base that was already checked for
             # consistency and asked a query (answers depend on the formulas, not on where the objects have been)
